@@ -609,6 +609,10 @@ class _Sub(object):
     def solver(self):
         return self.en.solver
 
+    @property
+    def _dom(self):            # (nested wrappers: the engine's table of character domains)
+        return self.en._dom
+
 
 STR_ALPHA = "abcXYZ019 _-.:/{}[],'\""
 
